@@ -683,6 +683,15 @@ class ComponentState(object):
         self.log.info("Finish called for component %s with finalState %s" % (
             self.specification.identification, finalState))
 
+        # VV: A component receives exactly one final state. A second finish() (e.g. the controller decides that a
+        #     component cannot restart right after the component was stopped because its stage failed) must not
+        #     replace it.
+        if self.controllerState in [experiment.model.codes.FINISHED_STATE, experiment.model.codes.FAILED_STATE,
+                                    experiment.model.codes.SHUTDOWN_STATE]:
+            self.log.info("Component %s is already in final state %s - will not transition it to %s" % (
+                self.specification.identification, self.controllerState, finalState))
+            return
+
         self._finishedCalled = True
 
         # Protocol
